@@ -1,4 +1,4 @@
-\* exhaustive, reference semantics: <= 2 batches x <= 2 ops (all <= 4 ops per history), 2 names, 2 label shapes, 2 groups, 2 hooks, values {0.5, 1.0}, 3 invalid ops (VIEW hides the history)
+\* exhaustive, reference semantics: <= 2 batches x <= 2 ops, <= 3 ops per history, 2 names, 2 label shapes, 2 groups, 2 hooks (first batch from h1: hooks are interchangeable), values {0.5, 1.0}, 3 invalid ops (VIEW hides the history); ~405 k generated / 55 k distinct states
 SPECIFICATION Spec
 CONSTANTS
   Names = {"m1", "m2"}
@@ -9,8 +9,9 @@ CONSTANTS
   InvalidSel <- InvFew
   MaxBatches = 2
   MaxOps = 2
+  SymHooks = TRUE
   MinOps = 0
-  MaxTotalOps = 4
+  MaxTotalOps = 3
   MaxInvalid = 2
   AvoidOpen = FALSE
   AsIs = {}
